@@ -255,8 +255,9 @@ def run(ctx):
         r1.undecidable("siblings", "expected two functions using the suffix table on the event path (candidate builder, selection look-up), found %s" % sib)
         return
     tabs = {}
+    from . import roles as _roles
     for fk in sib:
-        b = prog.body(fk)
+        b = _roles.ib(prog, fk)          # private helpers (e.g. a shared junction function) spliced in
         short = fk.split("::")[-1]
         try:
             region, err = join_region(prog, b, cls)
@@ -298,7 +299,7 @@ def run(ctx):
 
     # ---------------- R2 partition
     for fk in sib:
-        b = prog.body(fk)
+        b = _roles.ib(prog, fk)
         short = fk.split("::")[-1]
         # the word: &str parameter, or word() of the split parameter
         def is_word(e, b=b):
